@@ -153,6 +153,13 @@ def gen_programs(ctx, quick, boost):
                                 max_clauses=3 if not big else 4)
         items.append(("R%d" % k, r.below(1 << 31), prog))
     dist["random(<=4x4x3, every 5th <=6x6x3)"] = nrand
+    # cancellation and timers: ev/cancel of another fiber, ev/sleep with a duration, ev/with-deadline around the next
+    # operations - these make stale run-queue tasks (a fiber scheduled twice before it runs) and stale timers
+    ntime = (3000 if quick else 80000) * boost
+    r = ctx.rng.fork("timing")
+    for k in range(ntime):
+        items.append(("T%d" % k, r.below(1 << 31), P.random_program(r, max_fibers=4, max_ops=5 if k % 3 else 4, timing=True)))
+    dist["random with ev/cancel, ev/sleep d, ev/with-deadline"] = ntime
     # selects that name one channel in several clauses can match themselves: compared with the model, oracle results
     # only counted (see notes/C06.md)
     nself = (1500 if quick else 30000) * boost
